@@ -380,7 +380,17 @@ def D21():
                 % (e, [getattr(x, 'source', x) for x in seen], p.state))
 
 
-ALL = ['D%d' % i for i in range(1, 22)]
+def D22():
+    # a User Identity (AC) sub-item whose server response is not pure ASCII
+    from pynetdicom2 import userdataitems as ud
+    s = ud.UserIdentityNegotiationSubItemAc('tick\u00e9')
+    b = s.encode()
+    if len(b) != s.total_length or b[2] * 256 + b[3] != len(b) - 4:
+        return ('UserIdentityNegotiationSubItemAc("tick\\u00e9"): %d bytes emitted, total_length %d, item length field %d'
+                % (len(b), s.total_length, b[2] * 256 + b[3]))
+
+
+ALL = ['D%d' % i for i in range(1, 23)]
 
 if __name__ == '__main__':
     sel = sys.argv[1:] or ALL
